@@ -490,12 +490,16 @@ impl Store {
 
                             // Remove events (up to the created_at of the deletion event)
                             if addr.kind.is_replaceable() {
-                                self.remove_replaceable(
-                                    txn,
-                                    addr.author,
-                                    addr.kind,
-                                    event.created_at(),
-                                )?;
+                                // A replaceable event lives at `kind:author:` (empty d).
+                                // An address with any other d names nothing of that kind.
+                                if addr.d.is_empty() {
+                                    self.remove_replaceable(
+                                        txn,
+                                        addr.author,
+                                        addr.kind,
+                                        event.created_at(),
+                                    )?;
+                                }
                             } else if addr.kind.is_parameterized_replaceable() {
                                 self.remove_parameterized_replaceable(
                                     txn,
